@@ -351,4 +351,71 @@ class Refine(Component):
         ctx.label("position-nonempty", len(res["position"]) > 0)
 
 
-COMPONENTS = [SizeTight(), NoCommon(), NoCommonE2(), Refine()]
+class LargeTables(Component):
+    """No-common-token and refinement guarantees on the larger synthetic tables of C02."""
+    name = "large"
+    kind = "hyp"
+    rule = "a token-disjoint pair and PositionFilter result strictly smaller than another's"
+
+    def examples(self, tier):
+        return 8 if tier == "quick" else 50
+
+    def strategy(self, tier):
+        from .c02 import large_case
+        return large_case(tier)
+
+    def check(self, case, ctx):
+        from .c02 import large_tables
+        L, R, lv, rv = large_tables(case["seed"], case["nl"], case["nr"], case["vocab"],
+                                    case["maxtok"])
+        m = case["measure"] if case["measure"] != "OVERLAP_COEFFICIENT" else "DICE"
+        t = max(1, case["tgrid"] // 12) if m == "OVERLAP" else case["tgrid"] / 100.0
+        nj = case["n_jobs"]
+        lk, rk = L["key"].tolist(), R["key"].tolist()
+        ls = [None if v is None else frozenset(v.split()) for v in lv]
+        rs = [None if v is None else frozenset(v.split()) for v in rv]
+        res = {}
+        for ft in ("position", "prefix", "size", "overlap"):
+            if ft == "overlap":
+                fcfg = {"type": ft, "threshold": t if m == "OVERLAP" else 1}
+            else:
+                fcfg = {"type": ft, "measure": m, "threshold": t}
+            f = calls.make_filter(ctx, fcfg, mk_tok({"kind": "ws", "return_set": True}))
+            if f is None:
+                return
+            k = nj if ft in ("size", "overlap") else 1
+            with calls.backend(k):
+                df = ctx.lib(f.filter_tables, L, R, "key", "key", "val", "val", n_jobs=k,
+                             show_progress=False)
+            if df is None:
+                return
+            res[ft] = set(zip(df["l_key"].tolist(), df["r_key"].tolist()))
+        ndisj = 0
+        for i, x in enumerate(ls):
+            for j, y in enumerate(rs):
+                if x is None or y is None or (not x and not y):
+                    continue
+                if x.isdisjoint(y):
+                    ndisj += 1
+                    for ft in ("position", "prefix", "overlap"):
+                        if (lk[i], rk[j]) in res[ft]:
+                            ctx.violation("filter=%s,kind=keeps-token-disjoint-pair"
+                                          % c04.CLS[ft],
+                                          "%s(%s, %r).filter_tables on %dx%d synthetic rows "
+                                          "(seed %d) lists %r which share no token"
+                                          % (c04.CLS[ft], m, t, case["nl"], case["nr"],
+                                             case["seed"], (lv[i], rv[j])))
+        for other in ("prefix", "size"):
+            extra = res["position"] - res[other]
+            if extra:
+                ctx.violation("filter=PositionFilter,kind=not-subset-of-%s" % other,
+                              "PositionFilter(%s, %r).filter_tables on %dx%d synthetic rows (seed "
+                              "%d) lists %r which %s does not"
+                              % (m, t, case["nl"], case["nr"], case["seed"],
+                                 sorted(extra, key=repr)[:3], c04.CLS[other]))
+        ctx.nontrivial(ndisj > 0 and len(res["position"]) < max(len(res["prefix"]),
+                                                                len(res["size"])))
+        ctx.label("large:" + m)
+
+
+COMPONENTS = [SizeTight(), NoCommon(), NoCommonE2(), Refine(), LargeTables()]
